@@ -53,11 +53,13 @@ def corrupt_sessions(rnd, n):
         if not cands:
             continue
         k = rnd.choice(cands)
-        how = rnd.choice(["cut", "cut", "cut", "flip", "encap"])
+        how = rnd.choice(["cut", "cut", "cut", "flip", "encap", "status32"])
         if how == "cut":
             c = ["cut", rnd.choice([0, 1, 2, 4, 8, 12, 23, 24, 25, 30, 39, 40, 41, 42, 43, 44, 45, 46, 47, 48, 49, 50, lens[k] - 1, rnd.randint(0, lens[k] - 1)])]
         elif how == "flip":
             c = ["flip", rnd.randint(24, lens[k] - 1), 1 << rnd.randint(0, 7)]
+        elif how == "status32":
+            c = ["status32", rnd.choice([1, 0x64, 0x65, 0x10000, 0x640000, 0x7FFF0000, 0x00010001, 0x00FF0000])]
         else:
             c = ["encap", rnd.choice([1, 2, 3, 0x64, 0x65, 0x69, 0x10000, 0x640000])]
         sc2 = json.loads(json.dumps(sc))
